@@ -23,6 +23,7 @@ def run(ck, fb):
     r13l(ck, fb)
     r13m(ck, fb)
     r13n(ck, fb)
+    r13o(ck, fb)
 
 
 def _run0(ck, fb):
@@ -97,7 +98,7 @@ def _run0(ck, fb):
                 if not (ok_en and ok_lm):
                     # the re-validation may live in a bool helper of Service (extract-method): the action is reached only on its false edge,
                     # the helper is handed the matching cut-off, and its truth table is  found && (!is_enable_timeout || last_modified > cut-off)
-                    h_en, h_lm = _stale_helper(ck, fb, t, s, cutoff)
+                    h_en, h_lm, _h_none = _stale_helper(ck, fb, t, s, cutoff)
                     ok_en, ok_lm = ok_en or h_en, ok_lm or h_lm
                 # a skipped key must not end the scan: from every skip edge the loop's `next` is reached again (continue, not break/return)
                 nxt_all = [x.bb for x in t.calls(r'Iterator>::next$')]
@@ -367,14 +368,19 @@ def _stale_helper(ck, fb, t, s, cutoff):
         except (Undecided, Unsupported, Panic, NeedAtom, Exception):
             continue
         ck.analysed(h)
-        en_ok = lm_ok = bool(rows)
+        en_ok = lm_ok = none_ok = bool(rows)
         for (asg, r, calls) in rows:
             if asg.get('GET') != 'Some':
+                try:
+                    if asg.get('GET') == 'None' and not bool(r.value()):
+                        none_ok = False
+                except Exception:
+                    none_ok = False
                 continue
             try:
                 got = bool(r.value())
             except Exception:
-                return (False, False)
+                return (False, False, False)
             if asg.get('EN') is False and not got:
                 en_ok = False
             if asg.get('EN') is True and asg.get('inst.last_modified_millis') == 2 and not got:
@@ -387,8 +393,10 @@ def _stale_helper(ck, fb, t, s, cutoff):
             en_ok = False
         if 'inst.last_modified_millis' not in names:
             lm_ok = False
-        return (en_ok, lm_ok)
-    return (False, False)
+        if 'GET' not in names:
+            none_ok = False
+        return (en_ok, lm_ok, none_ok)
+    return (False, False, False)
 
 
 def r13h(ck, fb):
@@ -611,3 +619,40 @@ def r13n(ck, fb, R='R13n'):
                     ck.require(must, R, key, b.where(),
                                'the %s of this round are not handed to the cluster sync on every path (reachable: %s, ways around it end at blocks %s): the other '
                                'nodes keep the old state of these instances' % (what, may, esc), 'sent on every path')
+
+
+def r13o(ck, fb, R='R13o'):
+    ck.rule(R, 'the heartbeat clock only speaks about instances it finds: in Service::time_check a fired entry whose instance is no longer in the map '
+               '(deregistered meanwhile) is dropped - from the None edge of the lookup neither remove_instance / update_instance_healthy_invalid nor a push '
+               'onto the reported lists is reached within that iteration (or, when the re-validation lives in a bool helper, the helper answers "skip" for an '
+               'absent instance). Every reported key is broadcast as a removal with an empty client id, which the other nodes apply to WHATEVER lives at '
+               'that address: a gRPC-connected instance that registered there on another node is removed by this node\'s stale entry')
+    t = ck.body(SV + 'time_check', R)
+    if not t:
+        return
+    nxt = [x.bb for x in t.calls(r'Iterator>::next$')]
+    look = util.mut_calls_on_field(t, 'instances', r'(HashMap::<K, V, S, A>|BTreeMap::<K, V, A>)::(get|get_mut|contains_key)$')
+    none_edges = util.option_edges(t, look, 'None')
+    acts = {x.bb for x in t.calls(re.escape(SV) + r'(remove_instance|update_instance_healthy_invalid)$')}
+    pushes = {x.bb for x in t.calls(r'Vec::<T, A>::push$')}
+    ck.floor(R, 'actions + reports in time_check', len(acts) + len(pushes), 4)
+    if none_edges:
+        ck.floor(R, 'lookups with an absent-instance edge', len(none_edges), 2)
+        for (s0, d0, lab0) in none_edges:
+            r = cfg.reach_from(t, [d0], blocked_blocks=nxt)
+            hit = sorted((acts | pushes) & r)
+            which = 'removal' if ({y.bb for y in t.calls(re.escape(SV) + 'remove_instance$')} & r) else \
+                ('unhealthy' if ({y.bb for y in t.calls(re.escape(SV) + 'update_instance_healthy_invalid$')} & r) else 'loop@%d' % sorted(e[0] for e in none_edges).index(s0))
+            ck.require(not hit, R, 'time_check:absent-instance-not-reported:%s' % which,
+                       t.where(hit[0]) if hit else t.where(s0),
+                       'a fired time-out entry whose instance is not in the map any more still reaches the action / the reported list: the key is broadcast as a '
+                       'removal (or an unhealthy transition) of an address this node knows nothing about', 'dropped')
+    else:
+        # helper form
+        oks = []
+        for callee, cutoff in ((SV + 'remove_instance', 'offline_time'), (SV + 'update_instance_healthy_invalid', 'healthy_time')):
+            for s0 in t.calls(re.escape(callee) + '$'):
+                oks.append(_stale_helper(ck, fb, t, s0, cutoff)[2])
+        ck.require(bool(oks) and all(oks), R, 'time_check:absent-instance-not-reported:helper', t.where(),
+                   'the re-validation helper does not answer "skip" for an absent instance (or no lookup of the instance was found in time_check at all)',
+                   'helper skips an absent instance')
